@@ -129,6 +129,7 @@ func TestC16(t *testing.T) {
 		}
 		realClientFailingStatus(t, r)
 		secondStoreWithoutLookups(t, r)
+		updaterBuiltWhileAPollInstalls(t, r)
 		for i := 0; i < r.N(12, 120); i++ {
 			lookupWhoseCacheWriteFails(t, r, i)
 		}
@@ -136,7 +137,7 @@ func TestC16(t *testing.T) {
 			lookupDuringPollOfStaleSecret(t, r, i)
 		}
 	}
-	r.Require("calls_on_a_second_store_without_lookups", "callers_with_a_cancellable_context_without_deadline", "requests_timed_out_inside_the_client", "lookups_whose_cache_write_failed", "lookups_disabled_cases", "lookups_enabled_cases", "shared_flights", "failed_lookups", "hang_bounded_callers", "retry_after_foreign_cancel", "successful_lookups", "stress_lookups", "cases_with_failing_cache", "handles_followed_a_later_poll", "updaters_followed_a_later_poll", "real_client_cancel_cases", "overlapping_cache_writes", "real_client_slow_service_cases", "lookups_after_the_service_recovered", "real_client_failing_status_cases", "lookups_during_a_poll_of_a_stale_secret")
+	r.Require("updaters_built_while_a_poll_installs", "calls_on_a_second_store_without_lookups", "callers_with_a_cancellable_context_without_deadline", "requests_timed_out_inside_the_client", "lookups_whose_cache_write_failed", "lookups_disabled_cases", "lookups_enabled_cases", "shared_flights", "failed_lookups", "hang_bounded_callers", "retry_after_foreign_cancel", "successful_lookups", "stress_lookups", "cases_with_failing_cache", "handles_followed_a_later_poll", "updaters_followed_a_later_poll", "real_client_cancel_cases", "overlapping_cache_writes", "real_client_slow_service_cases", "lookups_after_the_service_recovered", "real_client_failing_status_cases", "lookups_during_a_poll_of_a_stale_secret")
 	r.Rule("seeded cases: AllowLookup on/off; 1-2 undeclared names each with a service mode (ok, slow D, fail, fail-then-ok, hang for ever, not found) and 1-6 callers (LookupSecret / NewUpdater / Fields.Apply) with start offsets and contexts (background, deadline 1 s/1 min/10 min, cancelled at a random instant). Distinct = (AllowLookup, service mode, number of callers, set of context kinds, set of caller outcomes)")
 }
 
@@ -1219,5 +1220,46 @@ func secondStoreWithoutLookups(t *testing.T, r *evid.Run) {
 		return nil
 	}(); p == nil {
 		r.Violation("disabled-secret-no-panic", -1, "Secret of an unknown name on the second store did not panic", nil)
+	}
+}
+
+// updaterBuiltWhileAPollInstalls: NewUpdater on a name the store has to fetch; the caller's builder is slow (it
+// dials a service with the credential, say) and while it runs the secret is rotated and a poll installs the new
+// version. The updater that comes back is a working handle like any other: its next Get yields the new version.
+func updaterBuiltWhileAPollInstalls(t *testing.T, r *evid.Run) {
+	for c := 0; c < 4; c++ {
+		svc := fakesvc.New()
+		svc.Set("known", 3, value("known"))
+		svc.Set("late/one", 1, []byte("hunter1"))
+		st, err := setec.NewStore(context.Background(), setec.StoreConfig{Client: svc, Secrets: []string{"known"}, AllowLookup: true, PollInterval: -1, Logf: func(string, ...any) {}})
+		if err != nil {
+			t.Fatal(err)
+		}
+		name := []string{"late/one", "known"}[c%2]
+		old, _ := svc.Active(name)
+		builds := 0
+		u, err := setec.NewUpdater(context.Background(), st, name, func(b []byte) (string, error) {
+			builds++
+			if builds == 1 {
+				svc.Set(name, old.Version+1, []byte("rotated-"+name))
+				if c < 2 {
+					st.Refresh(context.Background())
+				} else {
+					done := make(chan struct{})
+					go func() { st.Refresh(context.Background()); close(done) }()
+					<-done
+				}
+			}
+			return "conn(" + string(b) + ")", nil
+		})
+		r.Eval(1)
+		r.Count("updaters_built_while_a_poll_installs", 1)
+		r.Distinct("updater built while a poll installs, name " + name)
+		if err != nil {
+			r.Violation("lookup-fails", -1, fmt.Sprintf("NewUpdater(%q): %v", name, err), nil)
+		} else if got := u.Get(); got != "conn(rotated-"+name+")" {
+			r.Violation("looked-up-handle-not-live", -1, fmt.Sprintf("NewUpdater(%q): while the caller's builder was running, the secret was rotated and a poll installed the new version; the updater's Get yields %q (the store's handle yields %q)", name, got, st.Secret(name).Get()), nil)
+		}
+		st.Close()
 	}
 }
